@@ -12,7 +12,7 @@ Definition vec := list Qc.
 Definition mat := list vec.
 
 (* Python exception class of a refusal *)
-Inductive err := ENotImpl | EValue.
+Inductive err := ENotImpl | EValue | EIndex.
 Inductive res (A : Type) := Ok (a : A) | Err (e : err).
 Arguments Ok {A}. Arguments Err {A}.
 
@@ -98,14 +98,27 @@ Definition f2p_eqb (a b : f2p) : bool :=
   | _, _ => false
   end.
 
+(* which argument a user callable's result inherits its ndarray subclass (CUQIarray tag) from: numpy
+   gives the result of a binary operation the attributes of the leftmost CUQIarray operand *)
+Inductive tsel :=
+| SelNone          (* returns a fresh plain array (np.asarray on the inputs, np.array([...])) *)
+| SelDir           (* derived from the first argument only *)
+| SelDirWrt        (* first argument leftmost, second next *)
+| SelWrtDir.       (* second argument leftmost, first next *)
+Definition tsel_eqb (a b : tsel) : bool :=
+  match a, b with
+  | SelNone, SelNone | SelDir, SelDir | SelDirWrt, SelDirWrt | SelWrtDir, SelWrtDir => true
+  | _, _ => false
+  end.
+
 (* the user-supplied `gradient(direction, wrt_par)` attribute of a geometry *)
 Inductive ggrad :=
-| GGDiag (dcs : list Qc)            (* direction * dmap(wrt_par), element-wise *)
-| GGStepSum (idx : list (list nat)). (* StepExpansion: out_i = sum of direction over step i *)
+| GGDiag (dcs : list Qc) (sel : tsel)  (* direction * dmap(wrt_par), element-wise, in either order *)
+| GGStepSum (idx : list (list nat)). (* StepExpansion: out_i = sum of direction over step i (fresh array) *)
 
 Definition ggrad_eqb (a b : ggrad) : bool :=
   match a, b with
-  | GGDiag x, GGDiag y => qcl_eqb x y
+  | GGDiag x s, GGDiag y s' => qcl_eqb x y && tsel_eqb s s'
   | GGStepSum x, GGStepSum y => natll_eqb x y
   | _, _ => false
   end.
@@ -154,10 +167,12 @@ Definition project (pj : proj) (vals : vec) : res Qc :=
 Definition step_fun2par (idx : list (list nat)) (pj : proj) (f : vec) : res vec :=
   mapM (fun s => project pj (map (nthq f) s)) idx.
 
-Definition conv_par2fun (cv : conv) (p : vec) : res vec :=
+(* `in2d`: the value handed to par2fun already is an (r, c) array (a column of a Samples object of
+   function values): reshape((r, c, -1), order) of an (r, c) array is that array, in either order *)
+Definition conv_par2fun (cv : conv) (in2d : bool) (p : vec) : res vec :=
   match cv with
   | CvId => Ok p
-  | CvImgF r c => if Nat.eqb (length p) (r * c) then Ok (img_par2fun r c p) else Err EValue
+  | CvImgF r c => if Nat.eqb (length p) (r * c) then Ok (if in2d then p else img_par2fun r c p) else Err EValue
   | CvImgC r c => if Nat.eqb (length p) (r * c) then Ok p else Err EValue
   | CvStep nfun idx _ => if Nat.eqb (length p) (length idx) then Ok (step_par2fun nfun idx p) else Err EValue
   end.
@@ -177,9 +192,10 @@ Definition conv_fun2par (cv : conv) (flat1d : bool) (f : vec) : res vec :=
 Definition plain1d (k : gclass) : bool :=
   match k with KDefault1D | KCont1D | KDiscrete => true | _ => false end.
 
-Definition g_par2fun (g : geo) (p : vec) : res vec :=
+Definition g_par2fun_gen (g : geo) (in2d : bool) (p : vec) : res vec :=
   if plain1d (g_cls g) then Ok p
-  else rmap (omap (g_map g)) (conv_par2fun (g_conv g) p).
+  else rmap (omap (g_map g)) (conv_par2fun (g_conv g) in2d p).
+Definition g_par2fun (g : geo) (p : vec) : res vec := g_par2fun_gen g false p.
 
 Definition g_fun2par_gen (g : geo) (flat1d : bool) (f : vec) : res vec :=
   if plain1d (g_cls g) then Ok f
@@ -191,6 +207,20 @@ Definition g_fun2par_gen (g : geo) (flat1d : bool) (f : vec) : res vec :=
        end.
 Definition g_fun2par (g : geo) (f : vec) : res vec := g_fun2par_gen g false f.
 
+(* the conversions return an array derived from their argument by reshape / ravel / element-wise
+   arithmetic (numpy keeps the ndarray subclass and its attributes) -- or, for StepExpansion, a fresh
+   np.zeros array filled by assignment (plain ndarray) *)
+Definition g_keeps (g : geo) : bool :=
+  plain1d (g_cls g) || match g_conv g with CvStep _ _ _ => false | _ => true end.
+
+(* fun2par ends in .squeeze(): a single-parameter StepExpansion returns a 0-d array *)
+Definition g_f2p_0d (g : geo) : bool :=
+  negb (plain1d (g_cls g)) &&
+  match g_f2p g, g_conv g with
+  | (F2Base | F2Imap _), CvStep _ idx _ => Nat.eqb (length idx) 1
+  | _, _ => false
+  end.
+
 Definition has_grad (g : geo) : bool := match g_grad g with Some _ => true | None => false end.
 
 (* function values are 2-d arrays (both sides >= 2 in everything generated) *)
@@ -200,9 +230,11 @@ Definition fun_is_2d (g : geo) : bool :=
 
 Definition ggrad_apply (gg : ggrad) (d wp : vec) : vec :=
   match gg with
-  | GGDiag dcs => vmul (pmap dcs wp) d
+  | GGDiag dcs _ => vmul (pmap dcs wp) d
   | GGStepSum idx => map (fun s => qsumv (map (nthq d) s)) idx
   end.
+Definition ggrad_sel (gg : ggrad) : tsel :=
+  match gg with GGDiag _ s => s | GGStepSum _ => SelNone end.
 
 (* ---- Geometry.__eq__ as reached from `array.geometry == model_geometry` (a = left operand) ----
    Same class: all attribute values equal.  _DefaultGeometry1D and Continuous1D with the same grid
@@ -212,10 +244,11 @@ Definition ggrad_apply (gg : ggrad) (d wp : vec) : vec :=
    a StepExpansion / user subclass on the same grid. *)
 Record quirks := mkQ {
   q_defeq : bool;          (* _DefaultGeometry1D.__eq__ accepts strict subclasses of Continuous1D *)
-  q_samples_par : bool     (* _apply_func treats every Samples column as parameters (flag ignored) *)
+  q_samples_par : bool;    (* _apply_func treats every Samples column as parameters (flag ignored) *)
+  q_eqidx : bool           (* _all_values_equal indexes list attributes of different length: IndexError *)
 }.
-Definition q_today : quirks := mkQ true true.
-Definition q_fixed : quirks := mkQ false false.
+Definition q_today : quirks := mkQ true true true.
+Definition q_fixed : quirks := mkQ false false false.
 
 Definition opt_qcl_eqb := opt_eqb qcl_eqb.
 Definition fields_eqb (a b : geo) : bool :=
@@ -234,28 +267,54 @@ Definition geo_eqb (q : quirks) (a b : geo) : bool :=
   | _, _ => fields_eqb a b
   end.
 
+(* ... and as it actually runs: two Discrete geometries with a different number of variables make
+   _all_values_equal walk off the end of the shorter `_variables` list *)
+Definition geo_eq (q : quirks) (a b : geo) : res bool :=
+  match g_cls a, g_cls b with
+  | KDiscrete, KDiscrete =>
+      if q_eqidx q && negb (Nat.eqb (g_pdim a) (g_pdim b)) then Err EIndex else Ok (geo_eqb q a b)
+  | _, _ => Ok (geo_eqb q a b)
+  end.
+
 (* ------------------------------------------------------------------------------------------ *)
 (* values in flight: an ndarray, possibly a CUQIarray (tag = its geometry and is_par)           *)
 (* ------------------------------------------------------------------------------------------ *)
 Definition tag := option (geo * bool).
 
-(* Model._2fun *)
-Definition two_fun (q : quirks) (geom : geo) (x : vec) (t : tag) (is_par : bool) : res (vec * tag) :=
-  match t with
-  | Some (gt, tp) =>
-      if geo_eqb q gt geom then                         (* x.funvals *)
-        if tp then rmap (fun f => (f, Some (gt, false))) (g_par2fun gt x) else Ok (x, Some (gt, false))
-      else if is_par then rmap (fun f => (f, t)) (g_par2fun geom x) else Ok (x, t)
-  | None => if is_par then rmap (fun f => (f, None)) (g_par2fun geom x) else Ok (x, None)
+Definition pick (s : tsel) (t1 t2 : tag) : tag :=
+  match s with
+  | SelNone => None
+  | SelDir => t1
+  | SelDirWrt => match t1 with Some _ => t1 | None => t2 end
+  | SelWrtDir => match t2 with Some _ => t2 | None => t1 end
   end.
 
-(* Model._2par (without the final wrapping) *)
-Definition two_par_gen (q : quirks) (geom : geo) (flat1d : bool) (val : vec) (t : tag) (is_par : bool) : res vec :=
+(* Model._2fun; in2d: see conv_par2fun *)
+Definition two_fun_gen (q : quirks) (geom : geo) (in2d : bool) (x : vec) (t : tag) (is_par : bool) : res (vec * tag) :=
   match t with
   | Some (gt, tp) =>
-      if geo_eqb q gt geom then (if tp then Ok val else g_fun2par_gen gt flat1d val)   (* val.parameters *)
-      else if is_par then Ok val else g_fun2par_gen geom flat1d val
-  | None => if is_par then Ok val else g_fun2par_gen geom flat1d val
+      bind (geo_eq q gt geom) (fun same =>
+      if same then                                      (* x.funvals: re-wrapped with is_par=False *)
+        if tp then rmap (fun f => (f, Some (gt, false))) (g_par2fun gt x) else Ok (x, Some (gt, false))
+      else if is_par then rmap (fun f => (f, if g_keeps geom then t else None)) (g_par2fun geom x) else Ok (x, t))
+  | None => if is_par then rmap (fun f => (f, None)) (g_par2fun_gen geom in2d x) else Ok (x, None)
+  end.
+Definition two_fun q geom x t is_par := two_fun_gen q geom false x t is_par.
+
+(* Model._2par without the final wrapping: value, the tag it carries afterwards, 0-d flag *)
+Record p2r := mkP2 { p_v : vec; p_tag : tag; p_0d : bool }.
+
+Definition two_par_gen (q : quirks) (geom : geo) (flat1d : bool) (val : vec) (t : tag) (is_par : bool) : res p2r :=
+  match t with
+  | Some (gt, tp) =>
+      bind (geo_eq q gt geom) (fun same =>
+      if same then                                      (* val.parameters: the array's OWN geometry converts *)
+        if tp then Ok (mkP2 val (Some (gt, true)) false)
+        else rmap (fun v => mkP2 v (Some (gt, true)) (g_f2p_0d gt)) (g_fun2par_gen gt flat1d val)
+      else if is_par then Ok (mkP2 val t false)
+      else rmap (fun v => mkP2 v (if g_keeps geom then t else None) (g_f2p_0d geom)) (g_fun2par_gen geom flat1d val))
+  | None => if is_par then Ok (mkP2 val None false)
+            else rmap (fun v => mkP2 v None (g_f2p_0d geom)) (g_fun2par_gen geom flat1d val)
   end.
 Definition two_par q geom val t is_par := two_par_gen q geom false val t is_par.
 
@@ -266,26 +325,36 @@ Record fwd := mkFwd { f_apply : vec -> vec; f_keeps_tag : bool }.
 Inductive input :=
 | InVec (v : vec)                           (* ndarray *)
 | InArr (g : geo) (apar : bool) (v : vec)   (* CUQIarray(v, is_par=apar, geometry=g) *)
-| InSamples (cols : list vec).              (* Samples, one column per sample *)
+| InSamples (items2d : bool) (cols : list vec).   (* Samples, one column per sample; items2d: each
+                                               sample is an (r, c) array of function values *)
 
+(* z: the array is 0-d *)
 Inductive output :=
-| OutVec (v : vec)
-| OutArr (g : geo) (v : vec)                (* CUQIarray(v, is_par=True, geometry=g) *)
+| OutVec (v : vec) (z : bool)
+| OutArr (g : geo) (v : vec) (z : bool)     (* CUQIarray(v, is_par=True, geometry=g) *)
 | OutSamples (g : geo) (cols : list vec).   (* Samples(out, geometry=g) *)
 
+(* the end of _2par: wrapped with `geom` on request, else whatever the value is by now *)
+Definition wrap_out (to_arr : bool) (geom : geo) (r : p2r) : output :=
+  if to_arr then OutArr geom (p_v r) (p_0d r)
+  else match p_tag r with
+       | Some (g, _) => OutArr g (p_v r) (p_0d r)
+       | None => OutVec (p_v r) (p_0d r)
+       end.
+
 (* Model._apply_func on one array *)
-Definition apply_one (q : quirks) (F : fwd) (rg dg : geo) (x : vec) (t : tag) (is_par : bool) : res vec :=
-  bind (two_fun q dg x t is_par) (fun xt =>
+Definition apply_one (q : quirks) (F : fwd) (rg dg : geo) (in2d : bool) (x : vec) (t : tag) (is_par : bool) : res p2r :=
+  bind (two_fun_gen q dg in2d x t is_par) (fun xt =>
     two_par q rg (f_apply F (fst xt)) (if f_keeps_tag F then snd xt else None) false).
 
 (* Model.forward / _apply_func (non-distribution input); `is_par` is the keyword argument *)
 Definition forward (q : quirks) (F : fwd) (rg dg : geo) (x : input) (is_par : bool) : res output :=
   match x with
-  | InVec v => rmap OutVec (apply_one q F rg dg v None is_par)
-  | InArr g ap v => rmap (OutArr rg) (apply_one q F rg dg v (Some (g, ap)) is_par)
-  | InSamples cols =>
+  | InVec v => rmap (wrap_out false rg) (apply_one q F rg dg false v None is_par)
+  | InArr g ap v => rmap (wrap_out true rg) (apply_one q F rg dg false v (Some (g, ap)) is_par)
+  | InSamples s2d cols =>
       rmap (OutSamples rg)
-           (mapM (fun c => apply_one q F rg dg c None (if q_samples_par q then true else is_par)) cols)
+           (mapM (fun c => rmap p_v (apply_one q F rg dg s2d c None (if q_samples_par q then true else is_par))) cols)
   end.
 
 (* ------------------------------------------------------------------------------------------ *)
@@ -295,28 +364,32 @@ Definition forward (q : quirks) (F : fwd) (rg dg : geo) (x : input) (is_par : bo
 Definition vecmat (n : nat) (d : vec) (J : mat) : vec :=
   map (fun j => qdot d (col 0 J j)) (seq 0 n).
 
-(* the model's _gradient_func *)
+(* the model's _gradient_func.  jt: the user's jacobian(wrt) returns an array that still carries
+   wrt's subclass (computed from wrt without np.asarray) *)
 Inductive gfun :=
 | GNone                                               (* no gradient / jacobian given *)
-| GJac (n : nat) (J : vec -> mat)                     (* Model(jacobian=J): lambda d, w: d @ J(w) *)
-| GDir (h : vec -> vec -> vec) (shaped : bool)        (* Model(gradient=h); shaped: h returns an array
+| GJac (n : nat) (J : vec -> mat) (jt : bool)         (* Model(jacobian=J): lambda d, w: d @ J(w) *)
+| GDir (h : vec -> vec -> vec) (shaped : bool) (sel : tsel)
+                                                      (* Model(gradient=h); shaped: h returns an array
                                                          of the domain's function shape (else 1-d) *)
 | GAdjMat (n : nat) (A : mat)                         (* LinearModel(matrix): A.T @ d *)
-| GAdjFun (a : vec -> vec) (shaped : bool)            (* LinearModel(forward, adjoint): adjoint(d) *)
-| GPde (gw : option (vec -> vec -> vec)) (jw : option (nat * (vec -> mat))).
+| GAdjFun (a : vec -> vec) (shaped : bool) (sel : tsel)   (* LinearModel(forward, adjoint): adjoint(d) *)
+| GPde (gw : option ((vec -> vec -> vec) * tsel)) (jw : option (nat * (vec -> mat) * bool)).
                                                       (* PDEModel: pde.gradient_wrt_parameter first,
                                                          else d @ pde.jacobian_wrt_parameter(w) *)
 
-(* result and whether it is a flat 1-d array; dir2d: the direction is a 2-d array *)
-Definition run_gfun (gf : gfun) (dir2d : bool) (d w : vec) : res (vec * bool) :=
+Definition jac_sel (jt : bool) : tsel := if jt then SelDirWrt else SelDir.
+
+(* result, whether it is a flat 1-d array, and where its tag comes from; dir2d: the direction is 2-d *)
+Definition run_gfun (gf : gfun) (dir2d : bool) (d w : vec) : res (vec * bool * tsel) :=
   match gf with
   | GNone => Err ENotImpl
-  | GJac n J => if dir2d then Err EValue (* matmul shape mismatch *) else Ok (vecmat n d (J w), true)
-  | GDir h shaped => Ok (h d w, negb shaped)
-  | GAdjMat n A => if dir2d then Err EValue else Ok (qmattvec n A d, true)
-  | GAdjFun a shaped => Ok (a d, negb shaped)
-  | GPde (Some g) _ => Ok (g d w, true)
-  | GPde None (Some (n, J)) => if dir2d then Err EValue else Ok (vecmat n d (J w), true)
+  | GJac n J jt => if dir2d then Err EValue (* matmul shape mismatch *) else Ok (vecmat n d (J w), true, jac_sel jt)
+  | GDir h shaped sel => Ok (h d w, negb shaped, sel)
+  | GAdjMat n A => if dir2d then Err EValue else Ok (qmattvec n A d, true, SelDir)
+  | GAdjFun a shaped sel => Ok (a d, negb shaped, match sel with SelNone => SelNone | _ => SelDir end)
+  | GPde (Some (g, sel)) _ => Ok (g d w, true, sel)
+  | GPde None (Some (n, J, jt)) => if dir2d then Err EValue else Ok (vecmat n d (J w), true, jac_sel jt)
   | GPde None None => Err ENotImpl
   end.
 
@@ -336,7 +409,7 @@ Definition gradient (q : quirks) (gf : gfun) (rg dg : geo) (direction wrt : ginp
   : res output :=
   (* wrt_par = self._2par(wrt, domain_geometry, is_par=is_wrt_par); ValueError / NotImplementedError
      are re-raised with the same class *)
-  bind (if gi_samples wrt then Ok [] else two_par q dg (gi_vec wrt) (gi_tag wrt) wpar) (fun wp =>
+  bind (if gi_samples wrt then Ok (mkP2 [] None false) else two_par q dg (gi_vec wrt) (gi_tag wrt) wpar) (fun wp =>
   (* _check_gradient_can_be_computed *)
   match gf with GNone => Err ENotImpl | _ =>
   if gi_samples direction || gi_samples wrt then Err EValue
@@ -346,10 +419,14 @@ Definition gradient (q : quirks) (gf : gfun) (rg dg : geo) (direction wrt : ginp
     bind (two_fun q dg (gi_vec wrt) (gi_tag wrt) wpar) (fun wf =>
     bind (two_fun q rg (gi_vec direction) (gi_tag direction) dpar) (fun df =>
     bind (run_gfun gf (fun_is_2d rg) (fst df) (fst wf)) (fun gfl =>
-    let wrap v := if gi_is_arr direction then OutArr dg v else OutVec v in
+    let '(gv, flat, sel) := gfl in
+    let tg := pick sel (snd df) (snd wf) in
     match g_grad dg with
-    | Some gg => Ok (wrap (ggrad_apply gg (fst gfl) wp))       (* grad_is_par = True *)
-    | None => rmap wrap (g_fun2par_gen dg (snd gfl) (fst gfl))
+    | Some gg =>                                             (* grad_is_par = True *)
+        rmap (wrap_out (gi_is_arr direction) dg)
+             (two_par_gen q dg flat (ggrad_apply gg gv (p_v wp)) (pick (ggrad_sel gg) tg (p_tag wp)) true)
+    | None =>
+        rmap (wrap_out (gi_is_arr direction) dg) (two_par_gen q dg flat gv tg false)
     end)))
   end).
 
@@ -401,16 +478,21 @@ Definition poly_dir (n : nat) (A : mat) (dcs : list Qc) (d w : vec) : vec :=
 (* checkers for the generated case files                                                        *)
 (* ------------------------------------------------------------------------------------------ *)
 Definition err_eqb (a b : err) : bool :=
-  match a, b with ENotImpl, ENotImpl | EValue, EValue => true | _, _ => false end.
+  match a, b with ENotImpl, ENotImpl | EValue, EValue | EIndex, EIndex => true | _, _ => false end.
 
 (* observed output: kind (0 ndarray, 1 CUQIarray, 2 Samples) + columns, or the exception class;
    geometry identity (`out.geometry is model.range_geometry`) is reported by the harness as a flag *)
 Inductive observed := ObsVal (kind : nat) (cols : list (list Q)) | ObsErr (e : err).
 
+(* 0 ndarray 1-d, 1 CUQIarray 1-d, 2 Samples, 3 ndarray 0-d, 4 CUQIarray 0-d *)
 Definition out_kind (o : output) : nat :=
-  match o with OutVec _ => 0%nat | OutArr _ _ => 1%nat | OutSamples _ _ => 2%nat end.
+  match o with
+  | OutVec _ z => if z then 3%nat else 0%nat
+  | OutArr _ _ z => if z then 4%nat else 1%nat
+  | OutSamples _ _ => 2%nat
+  end.
 Definition out_cols (o : output) : list vec :=
-  match o with OutVec v => [v] | OutArr _ v => [v] | OutSamples _ cs => cs end.
+  match o with OutVec v _ => [v] | OutArr _ v _ => [v] | OutSamples _ cs => cs end.
 
 Definition check_out (r : res output) (o : observed) : bool :=
   match r, o with
